@@ -60,6 +60,7 @@ type MapV struct {
 	T   *types.Map
 }
 type MapState struct {
+	DagOf *Object // map returned by dag.GetLeaves/GetRoots/GetVertices: values are the graph's vertices
 	Has  *Term // (Array K Bool)
 	Vals Value // shape of arrays, nil if values are not modelled
 	Len  *Term
@@ -88,6 +89,7 @@ type Object struct {
 	Site    ssa.Instruction
 	Global  *ssa.Global
 	Const   bool // never written (package-level error values)
+	Ident   *Term // integer identity when stored in a ghost graph
 }
 
 func (o *Object) Initial() Value {
@@ -431,12 +433,16 @@ func (g *Gen) BSub(t, off, n *Term) *Term {
 	return App("bsub", SB, t, off, n)
 }
 
+// BCat concatenates; the result is kept left-nested so that equal concatenations are the same term.
 func (g *Gen) BCat(a, b *Term) *Term {
 	if l := g.BLen(a); l.IsConstInt() && l.I.Sign() == 0 {
 		return b
 	}
 	if l := g.BLen(b); l.IsConstInt() && l.I.Sign() == 0 {
 		return a
+	}
+	if b.Op == "app" && b.Name == "bcat" {
+		return g.BCat(g.BCat(a, b.Args[0]), b.Args[1])
 	}
 	return App("bcat", SB, a, b)
 }
